@@ -699,6 +699,25 @@ class Extractor:
                     raise AnchorLost("fn %s: no `mut %s` parameter" % (fname, pn))
                 body = "{ let mut %s = %s__in;" % (pn, pn) + body[1:]
                 hits["R19"] = hits.get("R19", 0) + 1
+        # R17 (call side): the n-th `many0(complete(..))(ARG)` expression is replaced by a call of its closure-converted
+        # form (tools/lift.py; the lifted functions are extracted from `lifted:<name>` in a unit of their own)
+        r17 = sorted([(int(k.split()[1]), v.strip()) for k, v in opts if k.startswith("r17call ")], reverse=True)
+        for n17, call in r17:
+            mb = mask(body)
+            ms = list(re.finditer(r"\bmany0\(\s*complete\(", mb))
+            if n17 >= len(ms):
+                raise AnchorLost("fn %s: many0(complete(..)) #%d not found" % (fname, n17))
+            o1 = mb.index("(", ms[n17].start())
+            c1 = match_close(mb, o1)
+            am = re.match(r"\s*\(\s*\w+\s*\)", mb[c1 + 1:])
+            if not am:
+                raise AnchorLost("fn %s: many0(..) #%d not applied directly" % (fname, n17))
+            stmt = body[ms[n17].start():c1 + 1 + am.end()]
+            self.meta.setdefault("opaque_statements", []).append(
+                {"fn": fname, "text": " ".join(stmt.split()),
+                 "sha256": hashlib.sha256(stmt.encode()).hexdigest()[:16], "stub": call})
+            body = body[:ms[n17].start()] + call + body[c1 + 1 + am.end():]
+            hits["R17"] = hits.get("R17", 0) + 1
         for key, val in opts:
             if key == "prerules":
                 body = apply_rules(body, [r for r in val.split() if r not in ("R14", "R15", "R16", "R18", "R22", "R24", "R25")], hits)
@@ -726,7 +745,7 @@ class Extractor:
         for key, val in opts:
             if key in ("requires", "ensures", "decreases"):
                 contract.append((key, val.strip().rstrip(",")))
-            elif key in ("rules", "prerules", "mapresbody", "acctype", "mutparam"):
+            elif key in ("rules", "prerules", "mapresbody", "acctype", "mutparam") or key.startswith("r17call "):
                 pass
             elif key.startswith("closure "):
                 if cl is None:
@@ -976,7 +995,7 @@ class Extractor:
                     d2 = s2[3:]
                     if d2.strip() == "end":
                         break
-                    mk = re.match(r"\s{0,3}((?:closure|forloop|opaquefor|beforefor|forstart|forend|loopstart|loopend|beforeloop|afterloop|loop)\s+\d+|before\s+\"[^\"]*\"|after\s+\"[^\"]*\"|opaque\s+\"[^\"]*\"|\w+):(.*)$", d2)
+                    mk = re.match(r"\s{0,3}((?:closure|forloop|opaquefor|beforefor|forstart|forend|loopstart|loopend|beforeloop|afterloop|loop|r17call)\s+\d+|before\s+\"[^\"]*\"|after\s+\"[^\"]*\"|opaque\s+\"[^\"]*\"|\w+):(.*)$", d2)
                     if mk and not d2.startswith("     "):
                         opts.append([mk.group(1), mk.group(2)])
                     else:
